@@ -91,10 +91,30 @@ def build(repo, findings):
     ])
     g.before(r'^\s*Expansion \{$', 'proof { assert forall|i: int, j: int| 0 <= i < fields@.len() && 0 <= j < fields@[i].0@.len() implies (#[trigger] fields@[i].0@[j]) is Unsplittable by { } }', fn_name=fn, optional=True)
     u.add(g)
+    # ---- the word of ${p:-word}: which text is expanded under which quote state, and the state afterwards
+    fn = 'expand_parameter_word'
+    g = ex.method_anywhere(fn).r1().r3().r11()
+    g.resub(r"\b(\w+)\.strip_prefix\('\"'\)", r"str_strip_prefix_char(\1, '\"')", 'R14', 'str::strip_prefix(char) -> stub', count=None)
+    g.resub(r"\b(\w+)\.strip_suffix\('\"'\)", r"str_strip_suffix_char(\1, '\"')", 'R14', 'str::strip_suffix(char) -> stub', count=None)
+    g.resub(r'std::format!\("\\"\{word\}\\""\)', 'vx_wrap_in_double_quotes(word)', 'R8', 'format!("\\"{word}\\"") -> stub returning the quoted text', count=None)
+    g.sig(fn, ret='res', ensures=[
+        C('C04,C05 quote-state-restored-after-a-parameter-word', 'final(self).in_double_quotes == old(self).in_double_quotes'),
+        C('C05,C04 parameter-word-read-with-the-rules-of-its-context', '''final(self).calls@ == old(self).calls@.push(parameter_word_call(word@, old(self).in_double_quotes))
+    && res == basic_expand_result(parameter_word_call(word@, old(self).in_double_quotes).0, parameter_word_call(word@, old(self).in_double_quotes).1, old(self).calls@.len())'''),
+    ])
+    g.at_body_start(fn, '''proof {
+    if word@.len() > 0 && word@[0] == '"' {
+        let st = word@.subrange(1, word@.len() as int);
+        if st.len() > 0 { assert(st.last() == word@.last()); assert(st.subrange(0, st.len() - 1) =~= word@.subrange(1, word@.len() - 1)); }
+    }
+}''')
+    u.raw('impl WordExpander {')
+    u.add(g)
+    u.raw('}\n')
     u.raw(FOOTER)
-    u.assume('external_body', 'process_double_quoted_pieces is a stub (flag left as found, unsplittable pieces only — ASSUMED); expand_tilde_expression is a stub with an uninterpreted result; TildeExpr, Error opaque; vx_owned (R17)')
+    u.assume('external_body', 'basic_expand is a stub: leaves the quote state as found (ASSUMED), result uninterpreted, call logged in a ghost field; process_double_quoted_pieces is a stub (flag left as found, unsplittable pieces only — ASSUMED); expand_tilde_expression is a stub with an uninterpreted result; TildeExpr, Error opaque; vx_owned (R17)')
     u.assume('uninterp', 'tilde_spec, std_whitespace')
     u.assume('axiom', 'String::to_string() returns an equal string')
     u.assume('stub', 'the other arms of expand_word_piece (parameter/arithmetic expansions, escape sequences), process_double_quoted_pieces and the conversion of pieces into glob patterns are NOT covered by this unit')
-    u.expected_min_fns = 9
+    u.expected_min_fns = 10
     return u
